@@ -179,7 +179,7 @@ def run_jobs(ctx, jobs, timeout=3000):
                     pats.append(j.pkg_pattern)
             ov = os.path.join(gdir, "overlay.json")
             json.dump({"Replace": rep}, open(ov, "w"))
-            dflt = 150 if ctx.tier == "quick" else 1500
+            dflt = 400 if ctx.tier == "quick" else 1500
             specs = [{"entry": j.import_path + "." + j.entry, "params": j.params, "witness": j.twin, "tag": j.tag,
                       "deadline_s": j.deadline or dflt} for j in b]
             shards.append((b, (symgo, gdir, k, ov, load_dir, ",".join(pats), list(flags), specs, timeout)))
